@@ -9,15 +9,7 @@ import (
 )
 
 // factsOfConv is factsOf with integer conversions kept visible.
-func factsOfConv(fn *ssa.Function) *FuncFacts {
-	ff := &FuncFacts{Fn: fn, tb: newTB()}
-	ff.tb.keepConv = true
-	ff.Edges = branchEdges(fn)
-	for _, e := range ff.Edges {
-		ff.Facts = append(ff.Facts, factOf(ff.tb.of(e.If.Cond, 0), e.Truth))
-	}
-	return ff
-}
+func factsOfConv(fn *ssa.Function) *FuncFacts { return factsOfMode(fn, true) }
 
 // lenDerived: the term is built only from non-negative constants, len()/cap()
 // of existing values and + * / % (no subtraction, no conversion that can
